@@ -10,3 +10,4 @@ import JugModel.Props.C17
 #print axioms Jug.C17.slice_value
 #print axioms Jug.C17.slice_rejects_only_zero_step
 #print axioms Jug.C17.defaults_in_domain
+#print axioms Jug.C17.index_value
